@@ -1,4 +1,35 @@
 from props.client_props import gen_c17
-PROP = {"id": "C17", "stages": [{"name": "client", "target": "h_client", "gen": gen_c17, "shard": 12}], "trivial_tags": [],
-        "rule": 'long random histories (10-40 calls, thorough 40-200) mixing successful, refused, cancelled and failing transfers (peer reset, failing sink/source, unreachable passive endpoint) in all four methods with mode switches and reconnects; client descriptor table from libc interposition after every call and after destruction.',
-        "assumptions": ["in-memory control transport (a socket_base subclass) stands in for the TCP control socket; data connections are real loopback TCP", "oracle values (read sizes, kernel-chosen ports, connect results) are taken from the implementation run"]}
+from props.e2egen import *
+from props.e2egen import line as eline
+import props.c13 as C13, props.c07 as C07, props.c11 as C11
+
+def gen_e2e(ctx):
+    """real control sockets (plain and TLS): the descriptor count after every call, returned or thrown, equals the
+    connected flag; control connection dropped / reset by the server at various points, then the usual clean-ups"""
+    rng = ctx["rng"]
+    noop = "noop@" + R(b"200 ok")
+    for ver in (13, 12):
+        for tls in (1, 0):
+            c = cfg_str(ver=ver, tls=tls, prop="C17", verify="none")
+            co = connect(tls=bool(tls))
+            login_cut = "connect:-:-:%s:%s@%s%s" % (H(b"user"), H(b"pass"), R(b"220 hi") + ("/" + R(b"234 auth") + ",T" if tls else ""), "/" + R(b"331 pw") + "/")
+            for drop in ("X", "R"):
+                # the server answers and drops / resets the connection; the client finds out later
+                yield eline(c, [co, "noop@" + R(b"200 ok") + "," + drop, "isconn", "disc:0", "isconn", co, noop, "disc:1@" + R(b"221 bye")])
+                yield eline(c, [co, "noop@" + drop, "isconn", "disc:0", "isconn", co, noop, "disc:0"])
+                yield eline(c, [co, get("p", 1), "noop@" + drop, co, get("p", 1), "disc:0"])
+                yield eline(c, [co, "noop@" + R(b"421 closing") + "," + drop, "isconn", "disc:0", co, noop])
+                yield eline(c, [login_cut + drop, "isconn", "disc:0", co, noop])     # dropped in the middle of login
+            # a dropped (not reset) connection accepts one more write: the call that makes it fails reading the reply
+            yield eline(c, [co, "noop@" + R(b"200 ok") + ",X", "disc:1", "disc:0", co, noop, "disc:1@" + R(b"221 bye")])
+            yield eline(c, [co, "noop@" + R(b"200 ok") + ",X", "noop", "isconn", "disc:0", co, noop])
+            yield eline(c, [co, "noop@X", "disc:1", "disc:0", "isconn"])
+    for gen, prop in ((C13.gen_e2e, "C13"), (C07.gen_e2e, "C07"), (C11.gen, "C11")):
+        for l in gen(dict(ctx, scopes=[])):
+            yield l.replace("prop=%s" % prop, "prop=C17")
+    ctx["scopes"].append("e2e: control connection closed / reset by the server after a reply, instead of a reply, after 421, during login x TLS 1.2 / 1.3 / plain, each followed by graceful and non-graceful disconnect and a reconnect; plus the C13 / C07 / C11 e2e histories judged by the descriptor rule")
+
+PROP = {"id": "C17", "stages": [{"name": "client", "target": "h_client", "gen": gen_c17, "shard": 12},
+                                {"name": "e2e", "target": "h_e2e", "gen": gen_e2e, "shard": 6}], "trivial_tags": [],
+        "rule": 'long random histories (10-40 calls, thorough 40-200) mixing successful, refused, cancelled and failing transfers (peer reset, failing sink/source, unreachable passive endpoint) in all four methods with mode switches and reconnects; client descriptor table from libc interposition after every call and after destruction. e2e stage: real control sockets, plain and TLS, server drops / resets; descriptors held by the client after every call = 1 if it reports connected, else 0.',
+        "assumptions": ["in-memory control transport (a socket_base subclass) stands in for the TCP control socket in the client stage; data connections are real loopback TCP", "oracle values (read sizes, kernel-chosen ports, connect results) are taken from the implementation run"]}
